@@ -80,6 +80,7 @@ class Operand(ABC):
         self.left = NoneValue(None)
         self.right = NoneValue(None)
         self.operation = ""
+        self.address_offset = False
 
     @classmethod
     def create_from_str(cls, operand_string, instruction):
@@ -640,6 +641,11 @@ class ExtendedIndexedOperand(Operand):
                     size += hex_digits // 2
                     max_size = size
                     raw_post_byte |= 0x9D if hex_digits == 4 else 0x9C
+            elif additional_needs_resolution:
+                # a label as the constant offset: the 16-bit form, filled in by fix_addresses
+                self.address_offset = True
+                raw_post_byte |= 0x99
+                size += 2
             else:
                 if additional.is_negative():
                     if additional.is_8_bit():
@@ -775,6 +781,11 @@ class IndexedOperand(Operand):
                     size += hex_digits // 2
                     max_size = size
                     raw_post_byte |= 0x8D if hex_digits == 4 else 0x8C
+            elif additional_needs_resolution:
+                # a label as the constant offset: the 16-bit form, filled in by fix_addresses
+                self.address_offset = True
+                raw_post_byte |= 0x89
+                size += 2
             else:
                 if additional.is_negative():
                     if additional.is_4_bit():
